@@ -175,6 +175,23 @@ def r4_unkeyed_state(ctx):
                why='any other mutable state that reaches an answer would have to be keyed like the caches')
         fields = [fd['name'] for v in a['variants'] for fd in v['fields']]
         ctx.extra.setdefault('generator_fields', {})[adt.rsplit('::', 1)[-1]] = fields
+    # who may touch the caches: a second writer with its own idea of the key poisons later answers
+    sites = {f.name for f, b in facts.call_sites(TG + '::cache_attack', crate='chess', kinds=('lib', 'bin'))}
+    ctx.ob(rule, TG + '::cache_attack', 'attack cache filled only by MoveGenerator::get_attack_targets', sites == {MG + '::get_attack_targets'},
+           found=sorted(sites), expected=[MG + '::get_attack_targets'],
+           why='every cache entry must be written under the key its reader will use (checked for that one site by R1)')
+    sites = {f.name for f, b in facts.call_sites(TG + '::get_cached_attack', crate='chess', kinds=('lib', 'bin'))}
+    ctx.ob(rule, TG + '::get_cached_attack', 'attack cache read only by MoveGenerator::get_attack_targets', sites <= {MG + '::get_attack_targets'},
+           found=sorted(sites), expected=[MG + '::get_attack_targets'], nontrivial=False)
+    from sa.facts import field_reads
+    users = {(f.closure_of or f.name) for f, b, fl in field_reads(facts, TG, 'attacks_cache')} | {(f.closure_of or f.name) for f, b, how, fl in field_writes(facts, TG, 'attacks_cache')}
+    users = {u for u in users if not facts.fns[u].derived and facts.fns[u].impl_trait != 'std::default::Default'}
+    ctx.ob(rule, TG + '.attacks_cache', 'field used only by its two accessors', users <= {TG + '::cache_attack', TG + '::get_cached_attack'}, found=sorted(users),
+           expected=[TG + '::cache_attack', TG + '::get_cached_attack'])
+    users = {(f.closure_of or f.name) for f, b, fl in field_reads(facts, MG, 'cache')} | {(f.closure_of or f.name) for f, b, how, fl in field_writes(facts, MG, 'cache')}
+    users = {u for u in users if not facts.fns[u].derived and facts.fns[u].impl_trait != 'std::default::Default'}
+    ctx.ob(rule, MG + '.cache', 'move cache used only by generate_moves (and the entry counter)', users <= {MG + '::generate_moves', MG + '::cache_entry_count'},
+           found=sorted(users), expected=[MG + '::generate_moves', MG + '::cache_entry_count'])
     # hit_count never reaches a result
     name = MG + '::generate_moves'
     outs = Engine(facts, opaque={GVM}, readonly={HASH}).run(name)
